@@ -160,6 +160,20 @@ def run(ctx):
         o, p = attempt(pgpy, blobA, lambda m: outsider.decrypt(m))
         ev.append({'k': 'tamper', 'action': 'non-recipient key', 'region': '-', 'recipient': rk, 'cipher': int(cipher), 'outcome': o, 'plain': p,
                    'originals': originals, 'wrongkey': True, 'size': size})
+        # histories on ONE parsed message object: a refused attempt by an outsider, then the recipient, then the outsider again - the
+        # outsider must be refused both times whatever the object has seen in between
+        mobj = pgpy.PGPMessage.from_blob(blobA)
+        for who, actor in (('outsider first', lambda m: outsider.decrypt(m)), ('recipient', opener), ('outsider after the recipient', lambda m: outsider.decrypt(m))):
+            with warnings.catch_warnings():
+                warnings.simplefilter('ignore')
+                try:
+                    d_ = actor(mobj)
+                    c_ = d_.message
+                    o, p = ('raised', '') if d_.is_encrypted else ('returned', sha(c_.encode('utf-8') if isinstance(c_, str) else bytes(c_)))
+                except Exception:
+                    o, p = 'raised', ''
+            ev.append({'k': 'tamper', 'action': 'same message object: %s' % who, 'region': '-', 'recipient': rk, 'cipher': int(cipher), 'outcome': o, 'plain': p,
+                       'originals': originals, 'wrongkey': who != 'recipient', 'size': size})
         # the PKESK relabelled to the outsider's subkey id: the outsider now "is addressed" but holds the wrong key
         pk = build.read_packets(blobA)
         body = bytearray(pk[0][1])
